@@ -122,6 +122,12 @@ def install():
     sys.meta_path.insert(0, _Finder())
     sys.dont_write_bytecode = True
     rt.install_pandas_patches()
+    rt.install_rolling_patch()
+    # environment stub: logging is a no-op in symbolic workers (its %-formatting of
+    # proxies would otherwise demand machine numbers); the replays log as usual
+    import logging
+
+    logging.disable(logging.CRITICAL)
     _installed = True
 
 
